@@ -18,7 +18,8 @@ let mkprop h r pol bh bt bp secs nanos =
   { p_height = n_of_string h; p_round = n_of_string r; p_pol = n_of_string pol; p_bid = bid bh bt bp;
     p_secs = z_of_string secs; p_nanos = z_of_string nanos }
 let mksigner s =
-  if s = "H" then Homestead
+  (* "F": FrontierSigner.Sender is textually HomesteadSigner.Sender (same hash, homestead = true) *)
+  if s = "H" || s = "F" then Homestead
   else ChainIDSigner (n_of_string (String.sub s 2 (String.length s - 2)))
 let mktx nonce price gas to_ amount payload v r s =
   { t_nonce = n_of_string nonce; t_price = n_of_string price; t_gas = n_of_string gas;
@@ -31,6 +32,9 @@ let str_verify = function VOk -> "ok" | VErrAddress -> "addr" | VErrSignature ->
 let str_sender = function
   | SOk a -> "ok:" ^ string_of_n a | SOther -> "other" | SErrChainId -> "chainid" | SErrInvalidSig -> "invalidsig"
 let b01 b = if b then "1" else "0"
+let str_vb = function VBOk -> "ok" | VBType -> "type" | VBBlockID -> "blockid" | VBParts -> "parts" | VBNoSig -> "nosig"
+let optn s = if s = "nil" then None else Some (n_of_string s)
+let str_signer = function Homestead -> "H" | ChainIDSigner c -> "C:" ^ string_of_n c
 
 let () =
   let lines = read_lines stdin in
@@ -65,4 +69,13 @@ let () =
         print_endline ("rp " ^ str_sender (recover_plain oracle (nlist_of_hex h) (n_of_string r) (n_of_string s_) (z_of_string v)))
       | ["DC"; v] ->
         Printf.printf "dc %s %s\n" (b01 (is_protected (n_of_string v))) (string_of_n (derive_chain_id (n_of_string v)))
+      | ["VC"; ty; bh; bt; bp; siglen] ->
+        print_endline ("vc " ^ str_vb (vote_validate_basic (mkvote ty "0" "0" bh bt bp "0" "0") (n_of_string siglen)))
+      | ["PC"; bh; bt; bp; siglen] ->
+        print_endline ("pc " ^ str_vb (proposal_validate_basic (mkprop "0" "0" "0" bh bt bp "0" "0") (n_of_string siglen)))
+      | ["MS"; chain; fork; head] ->
+        Printf.printf "ms %s %s %s\n" (str_signer (make_signer (optn chain) (optn fork) (optn head)))
+          (str_signer (latest_signer (optn chain) (optn fork))) (str_signer (latest_signer_for_chain_id (optn chain)))
+      | ["SP"; sg] ->
+        print_endline ("sp " ^ (if sig_to_pub_rejects (nlist_of_hex sg) then "rej" else "key"))
       | l -> failwith ("bad line: " ^ String.concat " " l)) lines
